@@ -40,6 +40,22 @@ def materialise(world, dirpath, samples, build="hg19", profile_yaml=True, extra=
         reads = W.sample_reads(world, smp)
         if smp.get("no_neutral_reads"):
             reads = [r for r in reads if not r[3].startswith("n")]
+        if smp.get("neutral_thin"):
+            # thin cover of the neutral region: just enough reads for an average depth of 2 when the parts of the
+            # reads that stick out of the region are counted, less than 2 inside the region itself
+            import random as _random
+
+            c0, c1 = world["neutral"]
+            neutral = [r for r in reads if r[3].startswith("n") and r[0] < c1
+                       and r[0] + sum(n for op, n in r[1] if op in (0, 2)) > c0]
+            _random.Random(f"thin:{smp.get('phase_seed', 0)}").shuffle(neutral)
+            keep, bases = [], 0
+            for r in neutral:
+                if bases >= smp["neutral_thin"] * (c1 - c0):
+                    break
+                keep.append(r)
+                bases += sum(n for op, n in r[1] if op in (0, 2))
+            reads = [r for r in reads if not r[3].startswith("n")] + keep
         if smp.get("paired"):
             reads = W.pair_names(reads, smp.get("phase_seed", 0))
         fn = f"{name}.bam"
